@@ -43,6 +43,15 @@ def _case(draw, gen: int, grid: bool):
     if grid:
         return {"inst": inst, "state": state, "calls": "grid"}
     calls = draw(st.lists(cmdrun.calls_strategy(inst, state), min_size=5, max_size=30))
+    # the same mode first WITH and then WITHOUT power_on (and the reverse) on one AC: the second frame must mean what
+    # the second call asks for, whatever the first one was
+    for _ in range(draw(st.integers(0, 2))):
+        n = draw(st.sampled_from([a["number"] for a in inst["acs"]]))
+        m = draw(st.sampled_from(cmdrun.MODES))
+        first = draw(st.booleans())
+        pair = [["ac_mode", n, m, first], ["ac_mode", n, m, not first]]
+        at = draw(st.integers(0, len(calls)))
+        calls[at:at] = pair if draw(st.booleans()) else [pair[0]] + draw(st.lists(cmdrun.calls_strategy(inst, state), max_size=2)) + [pair[1]]
     return {"inst": inst, "state": state, "calls": calls}
 
 
